@@ -6,6 +6,7 @@
 import SmrtVerif.Model.Container
 import SmrtVerif.Proofs.Sum
 import SmrtVerif.Proofs.Todiag
+import SmrtVerif.Proofs.Fourier
 import Mathlib.Tactic.Ring
 import Mathlib.Tactic.Linarith
 
@@ -302,6 +303,149 @@ theorem nband_sufficient (npol : Nat) (ns : List Nat) (l : Nat) (hl : l < ns.len
     right; push_cast; constructor
     · nlinarith [this.1, this.2]
     · omega
+
+/-! ### the azimuthal Fourier helper is exact on band-limited matrices -/
+section fourier
+open Smrt.FourierP Finset
+
+/-- a cosine polynomial of degree ≤ M sampled at `φ_k = 2π k / N` -/
+noncomputable def cosPoly (N M : Nat) (a : Nat → ℝ) (k : Nat) : ℝ := ∑ n ∈ range (M + 1), a n * Real.cos (ang N n k)
+/-- a sine polynomial -/
+noncomputable def sinPoly (N M : Nat) (b : Nat → ℝ) (k : Nat) : ℝ := ∑ n ∈ range (M + 1), b n * Real.sin (ang N n k)
+
+theorem ang_mirror (N n k : Nat) (hN : 0 < N) (hk : k ≤ N) : ang N n (N - k) = (n : ℝ) * (2 * Real.pi) - ang N n k := by
+  have hN' : (N : ℝ) ≠ 0 := by exact_mod_cast (Nat.pos_iff_ne_zero.mp hN)
+  simp only [ang]; rw [Nat.cast_sub hk]; field_simp
+
+theorem mirrored_cosPoly (N M : Nat) (a : Nat → ℝ) (hN : 0 < N) (k : Nat) (hk : k < N) :
+    mirrored N false (cosPoly N M a) k = cosPoly N M a k := by
+  simp only [mirrored, Bool.false_eq_true, if_false]
+  by_cases h : k ≤ N / 2
+  · rw [if_pos h]
+  · rw [if_neg h]
+    simp only [cosPoly]
+    apply Finset.sum_congr rfl; intro n _
+    rw [ang_mirror N n k hN hk.le, Real.cos_nat_mul_two_pi_sub]
+
+theorem mirrored_sinPoly (N M : Nat) (b : Nat → ℝ) (hN : 0 < N) (k : Nat) (hk : k < N) :
+    mirrored N true (sinPoly N M b) k = sinPoly N M b k := by
+  simp only [mirrored, if_true]
+  by_cases h : k ≤ N / 2
+  · rw [if_pos h]
+  · rw [if_neg h]
+    simp only [sinPoly]
+    rw [← Finset.sum_neg_distrib]
+    apply Finset.sum_congr rfl; intro n _
+    rw [ang_mirror N n k hN hk.le, Real.sin_nat_mul_two_pi_sub]; ring
+
+theorem model_angle (N m k : Nat) : (2.0 : ℝ) * Real.pi * (m : ℝ) * (k : ℝ) / (N : ℝ) = ang N m k := by
+  have : (2.0 : ℝ) = 2 := by norm_num
+  simp only [ang, this]
+
+/-- **fourier_exact (even entries)**: for a cosine polynomial of degree `M < N/2` sampled on the `N/2 + 1` points of `[0, π]`, the
+    helper returns exactly its coefficients `a_m`, `m ≤ M` (V/H block, and the UU entry) -/
+theorem fourier_exact_even (npol N M p q m : Nat) (a : Nat → ℝ) (hN : 0 < N) (hM : 2 * M < N) (hm : m ≤ M)
+    (heven : oddEntry npol p q = false) :
+    ftEvenCoef Real.pi npol N p q m (cosPoly N M a) = a m := by
+  have hN' : (N : ℝ) ≠ 0 := by exact_mod_cast (Nat.pos_iff_ne_zero.mp hN)
+  -- the DFT real part of the mirrored sequence
+  have hre : dftRe Real.pi N m (mirrored N false (cosPoly N M a))
+      = ∑ n ∈ range (M + 1), a n * ∑ k ∈ range N, Real.cos (ang N n k) * Real.cos (ang N m k) := by
+    simp only [dftRe, transc_cos_real]
+    rw [sumN_eq_sum]
+    have : ∀ k ∈ range N, mirrored N false (cosPoly N M a) k * Real.cos (2.0 * Real.pi * (m : ℝ) * (k : ℝ) / (N : ℝ))
+        = ∑ n ∈ range (M + 1), a n * (Real.cos (ang N n k) * Real.cos (ang N m k)) := by
+      intro k hk
+      rw [mirrored_cosPoly N M a hN k (Finset.mem_range.mp hk), model_angle, cosPoly, Finset.sum_mul]
+      apply Finset.sum_congr rfl; intro n _; ring
+    rw [Finset.sum_congr rfl this, Finset.sum_comm]
+    apply Finset.sum_congr rfl; intro n _
+    rw [Finset.mul_sum]
+  have horth : ∀ n ∈ range (M + 1), a n * ∑ k ∈ range N, Real.cos (ang N n k) * Real.cos (ang N m k)
+      = if n = m then a m * (if m = 0 then (N : ℝ) else (N : ℝ) / 2) else 0 := by
+    intro n hn
+    have hn' : n ≤ M := by have := Finset.mem_range.mp hn; omega
+    rw [cos_cos_sum N n m hN (by omega)]
+    by_cases e : n = m
+    · subst e; simp
+    · simp [e]
+  have hsum : dftRe Real.pi N m (mirrored N false (cosPoly N M a)) = a m * (if m = 0 then (N : ℝ) else (N : ℝ) / 2) := by
+    rw [hre, Finset.sum_congr rfl horth, Finset.sum_ite_eq' (range (M + 1)) m]
+    simp [Finset.mem_range]; omega
+  have l1 : (1.0 : ℝ) = 1 := by norm_num
+  have l2 : (2.0 : ℝ) = 2 := by norm_num
+  unfold ftEvenCoef
+  simp only [heven]
+  by_cases h0 : m = 0
+  · subst h0
+    simp only [if_true]
+    rw [hsum]; simp only [if_true, l1]; field_simp
+  · simp only [h0, if_false, Bool.false_eq_true]
+    rw [hsum]; simp only [h0, if_false, l2]; field_simp
+
+/-- **fourier_exact (odd entries)**: for the entries that are odd in the azimuth (VU, HU, UV, UH; 3 polarisations) given by a sine
+    polynomial `Σ b_n sin(nφ)`, the helper returns `−b_m` in the (V|H, U) entries and `+b_m` in the (U, V|H) entries for
+    `1 ≤ m ≤ M` — the code's sign convention — and 0 for `m = 0` -/
+theorem fourier_exact_odd (N M p q m : Nat) (b : Nat → ℝ) (hN : 0 < N) (hM : 2 * M < N) (hm : m ≤ M)
+    (hodd : oddEntry 3 p q = true) :
+    ftEvenCoef Real.pi 3 N p q m (sinPoly N M b) = if m = 0 then 0 else (if q = 2 then - b m else b m) := by
+  have hN' : (N : ℝ) ≠ 0 := by exact_mod_cast (Nat.pos_iff_ne_zero.mp hN)
+  have hmir : ∀ k ∈ range N, mirrored N true (sinPoly N M b) k = sinPoly N M b k := by
+    intro k hk
+    exact mirrored_sinPoly N M b hN k (Finset.mem_range.mp hk)
+  have him : dftIm Real.pi N m (mirrored N true (sinPoly N M b))
+      = - ∑ n ∈ range (M + 1), b n * ∑ k ∈ range N, Real.sin (ang N n k) * Real.sin (ang N m k) := by
+    simp only [dftIm, transc_sin_real]
+    rw [sumN_eq_sum]
+    have : ∀ k ∈ range N, mirrored N true (sinPoly N M b) k * Real.sin (2.0 * Real.pi * (m : ℝ) * (k : ℝ) / (N : ℝ))
+        = ∑ n ∈ range (M + 1), b n * (Real.sin (ang N n k) * Real.sin (ang N m k)) := by
+      intro k hk
+      rw [hmir k hk, model_angle, sinPoly, Finset.sum_mul]
+      apply Finset.sum_congr rfl; intro n _; ring
+    rw [Finset.sum_congr rfl this, Finset.sum_comm]
+    congr 1
+    apply Finset.sum_congr rfl; intro n _
+    rw [Finset.mul_sum]
+  have hre0 : dftRe Real.pi N 0 (mirrored N true (sinPoly N M b)) = 0 := by
+    simp only [dftRe, transc_cos_real]
+    rw [sumN_eq_sum]
+    have : ∀ k ∈ range N, mirrored N true (sinPoly N M b) k * Real.cos (2.0 * Real.pi * ((0 : Nat) : ℝ) * (k : ℝ) / (N : ℝ))
+        = ∑ n ∈ range (M + 1), b n * Real.sin (ang N n k) := by
+      intro k hk
+      rw [hmir k hk]; simp [sinPoly]
+    rw [Finset.sum_congr rfl this, Finset.sum_comm]
+    apply Finset.sum_eq_zero; intro n _
+    rw [← Finset.mul_sum, sin_sum N n hN, mul_zero]
+  have horth : ∀ n ∈ range (M + 1), b n * ∑ k ∈ range N, Real.sin (ang N n k) * Real.sin (ang N m k)
+      = if n = m then (if m = 0 then 0 else b m * ((N : ℝ) / 2)) else 0 := by
+    intro n hn
+    have hn' : n ≤ M := by have := Finset.mem_range.mp hn; omega
+    rw [sin_sin_sum N n m hN (by omega)]
+    by_cases e : n = m
+    · subst e
+      by_cases z : n = 0 <;> simp [z]
+    · have : ¬ (n = m ∧ n ≠ 0) := fun h => e h.1
+      simp [e, this]
+  have hsum : dftIm Real.pi N m (mirrored N true (sinPoly N M b)) = - (if m = 0 then 0 else b m * ((N : ℝ) / 2)) := by
+    rw [him, Finset.sum_congr rfl horth, Finset.sum_ite_eq' (range (M + 1)) m]
+    have : m ∈ range (M + 1) := Finset.mem_range.mpr (by omega)
+    simp [this]
+  have l1 : (1.0 : ℝ) = 1 := by norm_num
+  have l2 : (2.0 : ℝ) = 2 := by norm_num
+  unfold ftEvenCoef
+  simp only [hodd]
+  by_cases h0 : m = 0
+  · subst h0
+    simp only [if_true]
+    rw [hre0]; simp
+  · simp only [h0, if_false, if_true]
+    rw [hsum]; simp only [h0, if_false, l2]
+    split_ifs <;> field_simp
+
+/-- non-vacuity: the entry (V, U) of a 3-polarisation matrix is odd, (V, H) is even; 16 samples resolve degree 4 -/
+example : oddEntry 3 0 2 = true ∧ oddEntry 3 0 1 = false ∧ oddEntry 2 0 1 = false ∧ 2 * 4 < 16 := by decide
+
+end fourier
 
 /-! ### non-vacuity: concrete instances of the hypotheses -/
 
